@@ -177,6 +177,45 @@ func c12both(c *vf.Ctx, t *c12tally, count uint32, hashes [][32]byte, flags []by
 	return ri
 }
 
+// ---- giant honest proofs -----------------------------------------------------
+
+// c12giantCase: an honest, almost fully matched proof over about a million
+// transactions (hundreds of kilobytes of flag bits), then the same proof with
+// surplus flag bytes, one flag bit flipped near the end, and the last hash
+// dropped.  Size-dependent shortcuts (caps on the flag expansion, chunked
+// traversal) only show at this scale.
+func c12giantCase(c *vf.Ctx, i int) {
+	ns := []int{1049180, 1048576 + 1, 2098360, 777777}
+	n := ns[i%len(ns)]
+	leaves := make([][32]byte, n)
+	for j := range leaves {
+		leaves[j][0], leaves[j][1], leaves[j][2], leaves[j][3] = byte(j), byte(j>>8), byte(j>>16), byte(j>>24)
+		leaves[j][31] = byte(i)
+	}
+	matched := make([]bool, n)
+	for j := range matched {
+		matched[j] = j%509 != 3 // nearly all matched
+	}
+	pm := ref.BuildPartialMerkle(leaves, matched)
+	max := c12maxCount()
+	var t c12tally
+	c.Count("giant_proof_flag_bytes", int64(len(pm.Flags)))
+	try := func(kind string, count uint32, hashes [][32]byte, flags []byte) {
+		c.Inc("giant_" + kind)
+		msg := wire.MsgMerkleBlock{Transactions: count, Hashes: c12ptrs(hashes), Flags: flags}
+		c12check(c, &t, "ExtractMatches", &msg, count, hashes, flags, max)
+	}
+	try("honest", pm.Count, pm.Hashes, pm.Flags)
+	try("surplus_flag_byte_00", pm.Count, pm.Hashes, append(append([]byte{}, pm.Flags...), 0))
+	try("surplus_flag_bytes_64", pm.Count, pm.Hashes, append(append([]byte{}, pm.Flags...), make([]byte, 64)...))
+	fl := append([]byte{}, pm.Flags...)
+	fl[len(fl)-2] ^= 0x10
+	try("flag_bit_flipped_near_end", pm.Count, pm.Hashes, fl)
+	try("last_hash_dropped", pm.Count, pm.Hashes[:len(pm.Hashes)-1], pm.Flags)
+	t.flush(c)
+	c.Nontrivial(vf.Mix(0x91a, uint64(n)))
+}
+
 // ---- small-scope enumeration ----------------------------------------------
 
 const (
@@ -643,7 +682,7 @@ func init() {
 		Title: "Merkle proof extraction is sound against malformed or malicious messages",
 		Rule: "stream enum1 (exhaustive): 2 alphabets {A,B,H(A||B)} / {A,B,H(A||A)} x count 0..7 x all 9841 hash lists of length 0..8 x {empty flags, all 256 one-byte flags}; " +
 			"stream enum2: the same cells x two-byte flag strings in blocks of 4096, addressed by mixed-radix index: cells with no more hashes than transactions x all 16 blocks (= all 65536 strings), cells with more hashes than transactions (rejected whatever the flags are) x 1 block (thorough: every such case; quick: seeded sample of 4000 cases, 3/4 of the first kind); " +
-			"stream mutations: honest proofs (reference builder, n<=464) and every single flag-bit flip, each hash dropped / duplicated / swapped / copied over its neighbour, count -1 +1 x2 0 max max+1 2^31 2^32-1, flags truncated / emptied / extended, left subtree repeated as right subtree and last transaction repeated (CVE-2012-2459), each as a struct and as bytes decoded by wire; " +
+			"stream giant: honest, almost fully matched proofs over about a million transactions and their surplus-flag-byte / flipped-bit / dropped-hash variants; stream mutations: honest proofs (reference builder, n<=464) and every single flag-bit flip, each hash dropped / duplicated / swapped / copied over its neighbour, count -1 +1 x2 0 max max+1 2^31 2^32-1, flags truncated / emptied / extended, left subtree repeated as right subtree and last transaction repeated (CVE-2012-2459), each as a struct and as bytes decoded by wire; " +
 			"stream deep: honest-shaped proofs for declared counts up to the maximum (2^k±2, odd, max-2..max) with random hashes, and their count / bit / hash / flag-length edits. " +
 			"Verdict per message: library root nil <=> reference rejects; otherwise root, match list and positions equal. One PartialBlock per extraction.",
 		Assumptions: []string{
@@ -691,8 +730,9 @@ func init() {
 		Streams: []*vf.Stream{
 			{Name: "enum1", Exhaustive: true, N: func(vf.Tier) int { return c12enumVariants * (c12enumMaxCount + 1) * c12enumLists }, Run: c12enum1},
 			{Name: "enum2", N: func(t vf.Tier) int { return t.Sz(4000, c12enum2live()+c12enum2dead()) }, Run: c12enum2},
-			{Name: "mutations", N: func(t vf.Tier) int { return t.Sz(6000, 80000) }, Run: c12mutations},
-			{Name: "deep", N: func(t vf.Tier) int { return t.Sz(20000, 300000) }, Run: c12deep},
+			{Name: "giant", MaxCaseSec: 300, N: func(t vf.Tier) int { return t.Sz(2, 4) }, Run: c12giantCase},
+			{Name: "mutations", Shards: 8, N: func(t vf.Tier) int { return t.Sz(6000, 80000) }, Run: c12mutations},
+			{Name: "deep", Shards: 4, N: func(t vf.Tier) int { return t.Sz(20000, 300000) }, Run: c12deep},
 		},
 	})
 }
